@@ -41,6 +41,7 @@ type tcase struct {
 	scaler uint32
 	tables map[string][]byte
 	nilTag []string
+	shared bool
 }
 
 func (c *tcase) String() string {
@@ -84,6 +85,29 @@ func genCase(t *rapid.T) *tcase {
 			d[j] = byte(rapid.IntRange(0, 255).Draw(t, "headByte"))
 		}
 		c.tables["head"] = d
+	}
+	if rapid.IntRange(0, 3).Draw(t, "sharedBacking") == 0 {
+		// the caller's tables are adjacent sub-slices of one buffer (as when
+		// they were cut out of a file image): Write must not write into them
+		tags := make([]string, 0, len(c.tables))
+		total := 0
+		for k, v := range c.tables {
+			tags = append(tags, k)
+			total += len(v)
+		}
+		sort.Strings(tags)
+		order := rapid.Permutation(tags).Draw(t, "backingOrder")
+		buf := make([]byte, 0, total+8)
+		for _, k := range order {
+			buf = append(buf, c.tables[k]...)
+		}
+		pos := 0
+		for _, k := range order {
+			l := len(c.tables[k])
+			c.tables[k] = buf[pos : pos+l] // capacity reaches into the next table
+			pos += l
+		}
+		c.shared = true
 	}
 	// the documented "nil data => table not written" case
 	if !stats.IsListed("C03", "nil-table-counted") {
@@ -193,7 +217,22 @@ func TestC03Container(t *testing.T) {
 				odd = true
 			}
 		}
+		// the caller's data is untouched (except head.checkSumAdjustment)
+		for k, v := range in {
+			w := c.tables[k]
+			if k == "head" {
+				v, w = append([]byte{}, v...), append([]byte{}, w...)
+				copy(v[8:12], []byte{0, 0, 0, 0})
+				copy(w[8:12], []byte{0, 0, 0, 0})
+			}
+			if !bytes.Equal(v, w) {
+				t.Fatalf("header.Write modified the caller's table %q\n%s", k, c)
+			}
+		}
 		var labels []string
+		if c.shared {
+			labels = append(labels, "shared-backing-array")
+		}
 		if len(c.nilTag) > 0 {
 			labels = append(labels, "nil-table")
 		}
